@@ -47,6 +47,7 @@ type Store struct {
 	rev       int64
 	leases    map[clientv3.LeaseID]*leaseInfo
 	nextLease int64
+	members   []*pb.Member
 	// FaultFn, if set, is asked before every operation ("get","put","delete","txn","grant","keepalive","revoke").
 	FaultFn func(op string) int
 	// Writes counts successful mutations (puts and deletes applied).
@@ -64,6 +65,7 @@ func (s *Store) Client() *clientv3.Client {
 	c := clientv3.NewCtxClient(context.Background())
 	c.KV = &kvImpl{s: s}
 	c.Lease = &leaseImpl{s: s}
+	c.Cluster = &clusterImpl{s: s}
 	return c
 }
 
@@ -456,3 +458,37 @@ func (l *leaseImpl) KeepAliveOnce(ctx context.Context, id clientv3.LeaseID) (*cl
 }
 
 func (l *leaseImpl) Close() error { return nil }
+
+// --- clientv3.Cluster (member list only) ---
+
+type clusterImpl struct{ s *Store }
+
+// Members is the member list reported by MemberList (name, client URLs).
+func (s *Store) SetMembers(ms []*pb.Member) { s.members = ms }
+
+func (c *clusterImpl) MemberList(ctx context.Context) (*clientv3.MemberListResponse, error) {
+	if c.s.fault("memberlist") != FaultNone {
+		return nil, ErrInjected
+	}
+	return &clientv3.MemberListResponse{Header: c.s.header(), Members: c.s.members}, nil
+}
+
+func (c *clusterImpl) MemberAdd(ctx context.Context, peerAddrs []string) (*clientv3.MemberAddResponse, error) {
+	panic("vetcd: MemberAdd is not modelled")
+}
+
+func (c *clusterImpl) MemberAddAsLearner(ctx context.Context, peerAddrs []string) (*clientv3.MemberAddResponse, error) {
+	panic("vetcd: MemberAddAsLearner is not modelled")
+}
+
+func (c *clusterImpl) MemberRemove(ctx context.Context, id uint64) (*clientv3.MemberRemoveResponse, error) {
+	panic("vetcd: MemberRemove is not modelled")
+}
+
+func (c *clusterImpl) MemberUpdate(ctx context.Context, id uint64, peerAddrs []string) (*clientv3.MemberUpdateResponse, error) {
+	panic("vetcd: MemberUpdate is not modelled")
+}
+
+func (c *clusterImpl) MemberPromote(ctx context.Context, id uint64) (*clientv3.MemberPromoteResponse, error) {
+	panic("vetcd: MemberPromote is not modelled")
+}
